@@ -111,7 +111,8 @@ contract(GL + '_retrieve_optimization_results', props=['C14', 'C20', 'C13', 'C03
 
 contract(GL + 'optimize_markov_random_fields', props=['C14', 'C20', 'C13', 'C12', 'C09', 'C19'],
          params=dict(model='obj:ModelState', stacked_training_data='arr2[real]', pool='opaque:pool'), returns='obj:ModelState',
-         requires=["wf(model)", "model.arguments.window_size >= 1", "model.arguments.sparsity_weight >= 0",
+         requires=["wf(model)", ("typestate:statistics-fitted", "model._phase == 2"),
+                   "model.arguments.window_size >= 1", "model.arguments.sparsity_weight >= 0",
                    "stacked_training_data.shape[1] >= 1", "stacked_training_data.shape[1] < 67108864",
                    # W divides the number of stacked columns (N*W columns by construction of the stacking)
                    "stacked_ok(stacked_training_data, model.arguments.window_size)",
@@ -133,7 +134,8 @@ contract(GL + 'optimize_markov_random_fields', props=['C14', 'C20', 'C13', 'C12'
                    "same(result.clusters[k].empirical_covariance, model.clusters[k].empirical_covariance) and "
                    "same(result.clusters[k].stacked_data_mean, model.clusters[k].stacked_data_mean))"),
                   "same(result._point_labels, model._point_labels) and same(result.arguments, model.arguments)",
-                  ("state-given-is-not-altered", "unchanged(model, model.clusters, stacked_training_data)")],
+                  ("state-given-is-not-altered", "unchanged(model, model.clusters, stacked_training_data)"),
+                  ("def:typestate", "result._phase == 3")],
          loops={1: dict(inv=["len(optimization_tasks) == len(model.clusters)", "fresh(optimization_tasks)",
                              "forall(0, cluster_id, lambda k: fresh(optimization_tasks[k]) and optimization_tasks[k].fn_is_admm and "
                              "same(optimization_tasks[k].a0, model.clusters[k].empirical_covariance) and "
